@@ -64,6 +64,9 @@ func (p *Path) bvToInt(x *term.T, signed bool) *term.T {
 func pow2(n int) *big.Int { return new(big.Int).Lsh(big.NewInt(1), uint(n)) }
 
 func (p *Path) intAbs(x *term.T) *term.T {
+	if x.Op == term.OBv2Nat || (x.IsConst() && x.Val.Sign() >= 0) {
+		return x // non-negative by construction
+	}
 	return p.F.Ite(p.F.ILt(x, p.F.IntConst64(0)), p.F.INeg(x), x)
 }
 
